@@ -108,8 +108,8 @@ def put_options_vc(S, prefix='put-options'):
         ctx = V.ctx
         I = V.I
         fv = S.resolve('trashcli.put.parser', 'Parser.parse_args')
-        S.resolve('trashcli.put.parser', 'make_parser')
-        S.resolve('trashcli.put.parser', 'ensure_int')
+        S.note_function('trashcli.put.parser', 'make_parser')
+        S.note_function('trashcli.put.parser', 'ensure_int')
         parser = I.call(I.lookup('trashcli.put.parser', 'Parser'), [], {})
         toks, picked, pos, ddash = _tokens(ctx, PUT_TABLE)
         argv0 = arg_str('argv0')
@@ -182,7 +182,7 @@ def empty_options_vc(S, prefix='empty-options'):
         ctx = V.ctx
         I = V.I
         fv = S.resolve('trashcli.empty.parser', 'Parser.parse')
-        S.resolve('trashcli.empty.parser', 'Parser.make_parser')
+        S.note_function('trashcli.empty.parser', 'Parser.make_parser')
         parser = I.call(I.lookup('trashcli.empty.parser', 'Parser'), [], {})
         toks, picked, pos, ddash = _tokens(ctx, EMPTY_TABLE, max_pos=1)
         default_inter = ctx.choose(2, 'default-is-interactive') == 1
@@ -351,7 +351,7 @@ def list_options_vc(S, prefix='list-options'):
         ctx = V.ctx
         I = V.I
         fv = S.resolve('trashcli.list.parser', 'Parser.parse_list_args')
-        S.resolve('trashcli.list.parser', 'Parser.__init__')
+        S.note_function('trashcli.list.parser', 'Parser.__init__')
         argv0 = arg_str('argv0')
         parser = I.call(I.lookup('trashcli.list.parser', 'Parser'), ['trash-list'], {})
         toks, picked, pos, ddash = _tokens(ctx, LIST_TABLE, max_pos=1)
